@@ -235,6 +235,14 @@ class C07(Check):
                         relation = x
             if not cached_consts:
                 self.holds("G11", MOD, GEN, "frozen-constants-vs-free-parameters", gen, "no constant is taken from the cache")
+            elif relation is not None and not any(
+                    (isinstance(x, ast.Call) and isinstance(x.func, ast.Attribute) and x.func.attr in ("add", "update") and isinstance(x.func.value, ast.Name) and x.func.value.id in tainted)
+                    or (isinstance(x, ast.AugAssign) and isinstance(x.target, ast.Name) and x.target.id in tainted)
+                    for lp_ in ast.walk(gen) if isinstance(lp_, (ast.For, ast.While)) and any(relation is y for y in ast.walk(lp_)) for x in ast.walk(lp_)):
+                self.violated("G11", MOD, GEN, "frozen-constants-vs-free-parameters", relation,
+                              "the free parameters are compared with the arguments of the computed components, but the set of moving names never grows: a constant that depends on a free "
+                              "parameter through a derived quantity (or through another assignment-defined parameter) is still frozen",
+                              witness="k free, kd = Derived(2*k), p := InitialAssignment(kd + 1): the generated function called with another k keeps p at its default-k value")
             elif relation is not None:
                 self.holds("G11", MOD, GEN, "frozen-constants-vs-free-parameters", relation, f"`{norm(getattr(relation, 'test', relation))[:60]}` relates the free parameters to component arguments")
             else:
